@@ -232,6 +232,9 @@ func vsdWhere(dump string) vsdAt {
 			}
 		case vsdHas(b, "(*peerWorkManager).workDispatcher"):
 			at.Disp = "run"
+		case vsdHas(b, "(*Broadcaster).rebroadcast"):
+			// the rebroadcast goroutine (a closure of broadcastHandler): not
+			// the handler itself
 		case vsdHas(b, "(*Broadcaster).broadcastHandler"):
 			switch {
 			case vsdHas(b, "sendTransaction"):
